@@ -59,6 +59,11 @@ def scenarios(ck, family, tier):
 
 
 def same(obs, exp):
+    if exp["res"] == "unsat-or":
+        # adversarial overrides: rejected, or (overrides without effect) the canonical value
+        if obs["res"] == "err:CircuitUnsatisfied":
+            return True
+        return obs["res"] == "ok" and obs["verify"] == "ok" and obs["ret"] == exp["ret"]
     if obs["res"] != exp["res"]:
         return False
     if exp["res"] == "ok":
